@@ -369,7 +369,10 @@ class symeig_torchfcn(torch.autograd.Function):
                                **ctx.bck_config)  # (*BAM, na, neig)
 
             # orthogonalize gevecs w.r.t. evecs
-            gevecsA = _ortho(gevecs, evecs, D=None, M=M, mright=True)
+            # (w.r.t. the whole degenerate subspace: the shifted system is singular
+            # on it, so its solution carries arbitrary components along every
+            # eigenvector of the degenerate block, not only its own)
+            gevecsA = _ortho(gevecs, evecs, D=idx_degen, M=M, mright=True)
 
         # accummulate the gradient contributions
         gaccumA = gevalsA + gevecsA
